@@ -599,3 +599,15 @@ Definition apply_aop (h : hdr hval) (o : aop) : hdr hval :=
 
 Definition auth_handle (tbl : list (str * str)) (ops : list aop) : hdr hval :=
   fold_left apply_aop ops (set_all VStr tbl []).
+
+(* cmd/sso-auth/main.go:46-60 (after d58c694): the process serves
+     NewLoggingHandler( SetSecurityHeaders( http.TimeoutHandler( authMux, server.timeout.request, "" ) ) )
+   where authMux's service routes run setHeaders again inside (authenticator.go:107-121).
+   SetSecurityHeaders Sets the table on the REAL writer's map; TimeoutHandler runs the mux on a
+   private map: when the deadline fires first (fired = true) it writes 503 to the real writer (the
+   map holds the table); otherwise the private map is assigned key-wise over the real one.
+   The logging handler (internal/auth/logging_handler.go:30-40) deletes GAP-Auth before the header is written. *)
+Definition k_gap_auth : str := bs "Gap-Auth".
+Definition auth_process (tbl : list (str * str)) (fired : bool) (ops : list aop) : hdr hval :=
+  let outer := set_all VStr tbl [] in
+  hdel k_gap_auth (if fired then outer else merge_replace outer (auth_handle tbl ops)).
